@@ -144,8 +144,8 @@ func genProg(g *hxc27.Gen, r *rand.Rand) (string, bool) {
 // A concurrent copy must keep seeing the state it was started with: the shell that
 // keeps running changes everything AFTER starting it and only then opens the gate
 // the copy waits at. Its snapshot must equal the one taken right before it started.
-const visPre = "x=before; arr=(a b); declare -A m=([k]=v); y=1; export e=1; fold() { echo 1; }; alias al=old; set -- p q"
-const visAfter = "x=after; arr[0]=changed; arr+=(new); m[k]=changed; m[j]=new; unset y; z=new; e=2; fold() { echo 2; }; fnew() { :; }; alias al=new; unalias al; set -- changed; shopt -s extglob"
+const visPre = "x=before; arr=(a b); declare -A m=([k]=v); y=1; export e=1; fold() { echo 1; }; fold2() { echo 2; }; alias al=old; set -- p q"
+const visAfter = "unset -f fold2; x=after; arr[0]=changed; arr+=(new); m[k]=changed; m[j]=new; unset y; z=new; e=2; fold() { echo 2; }; fnew() { :; }; alias al=new; unalias al; set -- changed; shopt -s extglob"
 const visJob = "__gate_wait g; __snap job; __gate_open d"
 
 type visCase struct{ name, prog string }
@@ -222,6 +222,24 @@ func sameView(a, b hxc27.Snap) string {
 	cmp("dirstack", a.DirStack, b.DirStack)
 	cmp("params", a.Params, b.Params)
 	return strings.Join(diff, ",")
+}
+
+// corpusLines reads a pinned corpus file (relative to /verif), skipping comments.
+func corpusLines(rel string) []string {
+	var out []string
+	for _, p := range []string{rel, "/verif/" + rel} {
+		b, err := os.ReadFile(p)
+		if err != nil {
+			continue
+		}
+		for _, ln := range strings.Split(string(b), "\n") {
+			if ln != "" && !strings.HasPrefix(ln, "#") {
+				out = append(out, ln)
+			}
+		}
+		break
+	}
+	return out
 }
 
 func main() {
@@ -322,6 +340,29 @@ func main() {
 	case "wait":
 		// wait gN returns job N's status whatever the completion order
 		r := hx.Rand(o.Seed, 3200)
+		// pinned regression corpus first (corpus/c32/regress.txt): fixed wait orders
+		for k, ln := range corpusLines("corpus/c32/regress.txt") {
+			f := strings.SplitN(ln, "\t", 2)
+			if len(f) != 2 {
+				continue
+			}
+			out := Out{ID: 100000 + k, Mode: "wait", Prog: strings.ReplaceAll(f[1], "\\n", "\n"), Want: f[0], RaceOn: hxc27.RaceEnabled}
+			res := pool.Run(hxc27.Case{ID: out.ID, Steps: []hxc27.Step{{Src: out.Prog}}})
+			out.Hang = res.Hang
+			out.Got = strings.Join(strings.Fields(hx.UnHex(res.Out)), " ")
+			switch {
+			case strings.Contains(res.Panic, "DATA RACE"):
+				out.Race = res.Panic
+				out.Fails = append(out.Fails, "data_race")
+			case res.Panic != "":
+				out.Panic = res.Panic
+			case res.Hang:
+				out.Fails = append(out.Fails, "wait_hangs")
+			case out.Got != out.Want:
+				out.Fails = append(out.Fails, "wait_wrong_status")
+			}
+			hx.Emit(out)
+		}
 		for i := 0; i < o.N; i++ {
 			n := 2 + r.IntN(4)
 			var sb strings.Builder
